@@ -214,17 +214,21 @@ def run(rep, tier, seed):
     rep.encoded_lisp("src/basilisp/core.lpy", ["derive", "underive", "isa?", "parents", "ancestors", "descendants"], "compiled from source")
     to = 90 if quick else 240
     specs = [dominance_spec(to, v) for v in VARIANTS]
-    n = 2 if quick else 3
+    n = 2
     perms = [0, 9, 14, 23]
-    if quick:
-        # one obligation per (first operation, first key): ~250 paths each; one role permutation (the iteration-order question is
-        # the three-candidate scenarios' subject, which cover all 24)
-        specs += [history_spec(n, to, first_op=f, perm=perms[1], first_a=a) for f in range(7) for a in (0, 1, 2, 4)]
-    else:
-        specs += [history_spec(n, to, first_op=f, perm=p) for f in range(7) for p in perms]
-    hn = 3 if quick else 4
-    specs += [hierarchy_spec(hn, to * 2 if quick else to, (4, a, b)) for a in range(3) for b in range(3) if a != b]
-    rep.bounds = {"history length": n, "derive/underive-only history length": hn, "dispatch values": "3 namespaced keywords + :default in histories, 4 in the three-candidate scenarios", "iteration orders": "24 role permutations"}
+    # one obligation per (first operation, first key): ~250 paths each; one role permutation (the iteration-order question is
+    # the three-candidate scenarios' subject, which cover all 24)
+    specs += [history_spec(2, to, first_op=f, perm=perms[1], first_a=a) for f in range(7) for a in (0, 1, 2, 4)]
+    if not quick:
+        # thorough: the same obligations with a longer budget and under a second role permutation, plus length 3 behind the
+        # three operations that change dispatch state (add method, prefer, derive) for one first key
+        specs += [history_spec(2, to, first_op=f, perm=perms[3], first_a=a) for f in range(7) for a in (0, 1, 2, 4)]
+        specs += [history_spec(3, to * 2, first_op=f, perm=perms[1], first_a=0) for f in (0, 3, 4)]
+    hn = 3
+    specs += [hierarchy_spec(3, to * 2 if quick else to, (4, a, b)) for a in range(3) for b in range(3) if a != b]
+    if not quick:
+        specs += [hierarchy_spec(4, to * 2, (4, 0, 1)), hierarchy_spec(4, to * 2, (4, 1, 2))]
+    rep.bounds = {"history length": "2 (3 behind add-method / prefer / derive in the thorough tier)", "derive/underive-only history length": "3 (4 for two first edges in the thorough tier)", "dispatch values": "3 namespaced keywords + :default in histories, 4 in the three-candidate scenarios", "iteration orders": "24 role permutations"}
     rep.outside = ["Python classes as dispatch values", "longer histories", "vectors of tags"]
     rep.assumptions += ["keyword hashes are fixed (PYTHONHASHSEED=0), so a role permutation determines the method map's iteration order"]
     rep.trusted += ["crosshair-tool 0.0.110 + z3", "from-scratch resolution oracle in vlib/props/c18.py"]
